@@ -870,6 +870,34 @@ theorem mutation_other_audience (cfg : Config) (now : Int) (op : Op) (t : Tok)
     · simp at hu
     · simp at hu
 
+/-! ### the hypotheses of the corollaries are met by ordinary states -/
+
+/-- the example CA without its ACME provisioner -/
+def exCfg' : Config := ⟨[exHost], [exJwk, exOidc], true, false, 1000⟩
+
+example : ∀ p ∈ exCfg'.provs, p.ty ≠ .acme ∧ p.ty ≠ .scep := by decide
+/-- expired by 61 s: refused; by 60 s: still accepted (`mutation_expired`) -/
+example : authorize exCfg' ((2300 + 61) * ns) .sign exTok = .reject .expired := by decide
+example : authorize exCfg' ((2300 + 60) * ns) .sign exTok = .ok 0 := by decide
+/-- not valid for another 61 s: refused (`mutation_not_yet_valid`) -/
+example : authorize exCfg' ((1999 - 61) * ns) .sign { exTok with iat := none } = .reject .notYetValid := by decide
+/-- issued one second before the CA started (`mutation_issued_before_start`) -/
+example : authorize exCfg' (2000 * ns) .sign { exTok with iat := some 999 } = .reject .issuedBeforeStart := by decide
+/-- the same token, signature not verifying under `jwk`'s key (`mutation_other_key`) -/
+example : authorize exCfg' (2000 * ns) .sign { exTok with cr := [Cr.none, Cr.none] } = .reject .signature := by decide
+/-- kid of a provisioner that is not configured (`mutation_removed`) -/
+example : authorize exCfg' (2000 * ns) .sign { exTok with kid := s "gone" } = .reject .notFound := by decide
+/-- a provisioner that failed to initialise (`mutation_uninitialised`) -/
+example : authorize ⟨[exHost], [{ exJwk with init := false }], true, false, 1000⟩ (2000 * ns) .sign exTok = .reject .disabled := by decide
+/-- addressed to another CA (`mutation_other_audience`): the lookup itself fails -/
+example : authorize exCfg' (2000 * ns) .sign
+    { exTok with aud := [⟨s "https://other/1.0/sign", s "https://other/1.0/sign"⟩] } = .reject .notFound := by decide
+/-- port variants are accepted: `https://ca:8443/1.0/sign` strips to the CA's URL -/
+example : authorize exCfg' (2000 * ns) .sign
+    { exTok with aud := [⟨s "https://ca:8443/1.0/sign", s "https://ca/1.0/sign"⟩] } = .ok 0 := by decide
+/-- empty subject (`mutation_empty_subject`) -/
+example : authorize ⟨[exHost], [exJwk], true, false, 1000⟩ (2000 * ns) .sign { exTok with sub := [] } = .reject .subject := by decide
+
 /-! ### nothing is signed, stored or revoked without a successful Authorize -/
 
 def Ev.isEff : Ev → Bool
